@@ -406,7 +406,8 @@ func (vr *variableResolver) resolve(ctx *ExecutionContext) (*Value, error) {
 		// If current is a reflect.ValueOf(pongo2.Value), then unpack it
 		// Happens in function calls (as a return value) or by injecting
 		// into the execution context (e.g. in a for-loop)
-		if current.Type() == typeOfValuePtr {
+		// (a *Value can hold a *Value again: the loop variable of a for over a list literal)
+		for current.IsValid() && current.Type() == typeOfValuePtr && !current.IsNil() {
 			tmpValue := current.Interface().(*Value)
 			current = tmpValue.val
 			isSafe = tmpValue.safe
